@@ -47,43 +47,86 @@ Definition lookup (data : jdoc) (name : list N) : jdoc :=
   | _ => JNull
   end.
 
-Definition action (body : list N) (data : jdoc) : tres (list N) :=
-  match trim body with
+(* an action is a substitution ({{ . }}, {{ .NAME }}) or one of the control words of a single,
+   non-nested conditional: {{ if .NAME }} ... {{ else }} ... {{ end }} *)
+Inductive act := ASubst (r : tres (list N)) | AIf (cond : bool) | AElse | AEnd | ABad.
+
+Definition truthy (d : jdoc) : bool :=
+  match d with
+  | JNull => false
+  | JBool b => b
+  | JNum z => negb (Z.eqb z 0)
+  | JStr s => match s with [] => false | _ => true end
+  | JList l => match l with [] => false | _ => true end
+  | JMap l => match l with [] => false | _ => true end
+  end.
+
+Definition select (data : jdoc) (path : list N) : tres jdoc :=
+  match path with
   | 46%N :: name =>
       match name with
-      | [] => fmt data
+      | [] => TOk data
       | _ => match data with
-             | JMap _ => fmt (lookup data name)
+             | JMap _ => TOk (lookup data name)
              | _ => TErr        (* "can't evaluate field" on a scalar *)
              end
       end
   | _ => TErr
   end.
 
-Fixpoint render_go (s : list N) (inact : bool) (acc : list N) (data : jdoc) : tres (list N) :=
+Definition action (body : list N) (data : jdoc) : act :=
+  match trim body with
+  | 105%N :: 102%N :: 32%N :: rest =>                         (* "if " *)
+      match select data (trim rest) with TOk d => AIf (truthy d) | TErr => ABad end
+  | [101; 108; 115; 101]%N => AElse
+  | [101; 110; 100]%N => AEnd
+  | path => match select data path with
+            | TOk d => ASubst (fmt d)
+            | TErr => ABad
+            end
+  end.
+
+(* mode: 0 outside a conditional; 1 / 2 inside the if branch (taken / not); 3 / 4 inside the else branch *)
+Definition emitting (mode : nat) : bool := match mode with 0 | 1 | 3 => true | _ => false end.
+
+Fixpoint render_go (s : list N) (inact : bool) (acc : list N) (data : jdoc) (mode : nat) : tres (list N) :=
   match s with
-  | [] => if inact then TErr else TOk []
+  | [] => if inact then TErr else match mode with 0 => TOk [] | _ => TErr end
   | c :: t =>
       if inact then
         match c, t with
         | 125%N, 125%N :: t' =>
-            match action acc data, render_go t' false [] data with
-            | TOk a, TOk r => TOk (a ++ r)
-            | _, _ => TErr
+            match action acc data with
+            | ASubst r =>
+                match (if emitting mode then r else TOk []), render_go t' false [] data mode with
+                | TOk a, TOk rest => TOk (a ++ rest)
+                | _, _ => TErr
+                end
+            | AIf b => match mode with 0 => render_go t' false [] data (if b then 1 else 2) | _ => TErr end
+            | AElse => match mode with
+                       | 1 => render_go t' false [] data 4
+                       | 2 => render_go t' false [] data 3
+                       | _ => TErr
+                       end
+            | AEnd => match mode with 0 => TErr | _ => render_go t' false [] data 0 end
+            | ABad => TErr
             end
-        | _, _ => render_go t true (acc ++ [c]) data
+        | _, _ => render_go t true (acc ++ [c]) data mode
         end
       else
         match c, t with
-        | 123%N, 123%N :: t' => render_go t' true [] data
-        | _, _ => match render_go t false [] data with TOk r => TOk (c :: r) | TErr => TErr end
+        | 123%N, 123%N :: t' => render_go t' true [] data mode
+        | _, _ => match render_go t false [] data mode with
+                  | TOk r => TOk (if emitting mode then c :: r else r)
+                  | TErr => TErr
+                  end
         end
   end.
 
-Definition render_impl (s : list N) (data : jdoc) : tres (list N) := render_go s false [] data.
+Definition render_impl (s : list N) (data : jdoc) : tres (list N) := render_go s false [] data 0.
 
 (* the recorded assumption about the engine holds for this one *)
-Lemma render_go_plain data : forall s, has_action s = false -> render_go s false [] data = TOk s.
+Lemma render_go_plain data : forall s, has_action s = false -> render_go s false [] data 0 = TOk s.
 Proof.
   fix IH 1. intros s. destruct s as [|c t]; [reflexivity|].
   intros H. cbn [render_go].
@@ -94,9 +137,12 @@ Proof.
       do 7 (destruct p' as [p'|p'|]; try exact H; try congruence).
     - do 7 (destruct p as [p|p|]; try exact H; try congruence). }
   assert (E : match c, t with
-              | 123%N, 123%N :: t' => render_go t' true [] data
-              | _, _ => match render_go t false [] data with TOk r => TOk (c :: r) | TErr => TErr end
-              end = match render_go t false [] data with TOk r => TOk (c :: r) | TErr => TErr end).
+              | 123%N, 123%N :: t' => render_go t' true [] data 0
+              | _, _ => match render_go t false [] data 0 with
+                        | TOk r => TOk (if emitting 0 then c :: r else r)
+                        | TErr => TErr
+                        end
+              end = match render_go t false [] data 0 with TOk r => TOk (c :: r) | TErr => TErr end).
   { destruct t as [|c' t']; [destruct c as [|p]; [reflexivity|]; do 7 (destruct p as [p|p|]; try reflexivity)|].
     destruct c as [|p]; [reflexivity|]. destruct (Pos.eqb_spec p 123) as [->|N].
     - destruct c' as [|p']; [reflexivity|]. destruct (Pos.eqb_spec p' 123) as [->|N']; [cbn in H; discriminate|].
